@@ -75,6 +75,13 @@ def gen_case(rng, tier, g):
                          profile=prof)
         right = gen_table(rng, maxrows, nfields=nfr, ragged=ragged,
                           profile=prof)
+        names = None
+        if rng.random() < 0.2:
+            # field names that contain each other (a key called 'ab' next to
+            # fields 'a' and 'b'): name tests must not be substring tests
+            names = ['ab', 'a', 'b', 'abc', 'bc']
+            left = [names[:nfl]] + left[1:]
+            right = [names[:nfr]] + right[1:]
         if rng.random() < 0.12:
             right = right[:1]
         if rng.random() < 0.08:
@@ -89,6 +96,14 @@ def gen_case(rng, tier, g):
             keyspec = {'key': ['a', 'b']}
         else:
             keyspec = {'lkey': 'a', 'rkey': FIELDS[rng.randrange(nfr)]}
+        if names is not None:
+            ren = dict(zip(FIELDS, names))
+
+            def rn(k):
+                if isinstance(k, (list, tuple)):
+                    return type(k)(ren[x] for x in k)
+                return ren[k]
+            keyspec = dict((kk, rn(vv)) for kk, vv in keyspec.items())
         args = {}
         if kind != 'hashantijoin':
             # (join() takes no `missing`: the inner join never pads)
